@@ -140,6 +140,7 @@ def kernels():
                 e = shim.CE.lift(H[i, j])
                 g.add('%s_ph_%d_%d' % (tag, i, j), ['k'] + KARGS, _phase_of_pixel(e))
                 if tag in ('nas', 'nbl'): g.add('%s_rad_%d_%d' % (tag, i, j), ['k'] + KARGS, _radicand(_phase_of_pixel(e)))
+                if tag == 'nbl': g.add('nbl_mask_%d_%d' % (i, j), ['k'] + KARGS, _mask_of_pixel(e))
                 g.add('%s_re_%d_%d' % (tag, i, j), ['k'] + KARGS, e.re)
                 g.add('%s_im_%d_%d' % (tag, i, j), ['k'] + KARGS, e.im)
         info[fname] = opshim.coq(term)
